@@ -575,6 +575,15 @@ func checkCLI(cc CLICase, bin, scratch string) (key, msg string, out uint64) {
 	if cc.Sub == "merge" {
 		args = append(args, "-i", in2)
 	}
+	page := 0
+	if cc.SrcExt == ".ts" {
+		// explicit teletext page on the command line (the library side passes the same option)
+		page = 888
+		if strings.Contains(cc.Doc, "german") {
+			page = 150
+		}
+		args = append(args, "-p", fmt.Sprint(page))
+	}
 	args = append(args, cc.Args...)
 	args = append(args, "-o", outp)
 	// generous horizon: a conversion of a small file takes milliseconds; a CLI that has not finished after two
@@ -587,7 +596,7 @@ func checkCLI(cc CLICase, bin, scratch string) (key, msg string, out uint64) {
 		return "cli." + cc.Sub + ".hangs", fmt.Sprintf("astisub %s %v on %s did not finish within 2 minutes", cc.Sub, cc.Args, cc.Doc), 0
 	}
 	// library side
-	s, lerr := astisub.OpenFile(in)
+	s, lerr := astisub.Open(astisub.Options{Filename: in, Teletext: astisub.TeletextOptions{Page: page}})
 	if lerr != nil {
 		return "", "", core.Hash64("source unreadable")
 	}
